@@ -72,8 +72,11 @@ func (handler *InvHandler) Handle(ctx context.Context, m wire.Message) ([]wire.M
 			}
 
 		// The trusted node shouldn't get block inventories because new blocks will be announced
-		//   with headers since we sent a "sendheaders" message.
+		//   with headers since we sent a "sendheaders" message. A block found before the peer
+		//   processed that message is still announced by inventory though, so clear in sync to
+		//   request headers again, otherwise the block is never fetched.
 		case wire.InvTypeBlock:
+			handler.state.ClearInSync()
 		default:
 		}
 	}
